@@ -19,12 +19,18 @@ Record obs := mkO {
   o_sendl : nat;          (* goroutines inside loopSend of this session *)
   o_recvl : nat;          (* goroutines inside loopReceive of this session *)
   o_rcvd : nat;           (* bytes the read handler consumed *)
-  o_inbox : list Z        (* bytes the peer has read *)
+  o_inbox : list Z;       (* bytes the peer has read *)
+  o_exit_h : nat          (* which handler's OnExit was called (0: the manager's; h: the h-th given to UpdateHandler) *)
 }.
 (* par = true: the issued labels were calls made concurrently from different goroutines (a set, not a sequence);
    the order in which they took effect is the one of [resolved] *)
-Record phase := mkPh { par : bool; issued : list label; resolved : list label; observed : Z * list obs }.
-Record case := mkCase { c_maxc : Z; c_phases : list phase }.
+Record phase := mkPh { par : bool; issued : list label; resolved : list label;
+  p_loop : bool;        (* the accept goroutine still runs (true when the scenario has no server) *)
+  p_maxfails : nat;     (* at most this many Accept calls can have failed in this phase: every failure is followed by a
+                           sleep of at least the configured delay, and the phase lasted only so long (0 when no failure
+                           was provoked) *)
+  observed : Z * list obs }.
+Record case := mkCase { c_maxc : Z; c_amax : nat; c_phases : list phase }.
 
 (* ---------------- decidable equalities ---------------- *)
 Definition transport_eqb a b := match a, b with Pipe, Pipe | Tcp, Tcp => true | _, _ => false end.
@@ -33,15 +39,17 @@ Definition rkind_eqb a b := match a, b with RErr, RErr | RTimeout, RTimeout | RH
 Definition wkind_eqb a b := match a, b with WErr, WErr | WTimeout, WTimeout => true | _, _ => false end.
 Definition act_eqb a b := match a, b with
   | Send x o, Send y p => zlist_eqb x y && Bool.eqb o p
+  | SetHandler j, SetHandler k => Nat.eqb j k
   | LocalClose, LocalClose | StartAgain, StartAgain | PeerClose, PeerClose | PeerRead, PeerRead | PeerByte, PeerByte
   | SendStep, SendStep | SendLost, SendLost | RecvEnd, RecvEnd => true
   | RecvFault j, RecvFault k => rkind_eqb j k
   | WriteFault j, WriteFault k => wkind_eqb j k
   | _, _ => false end.
 Definition label_eqb a b := match a, b with
-  | Start i t r, Start j u s => Nat.eqb i j && transport_eqb t u && Bool.eqb r s
+  | Start i t r h, Start j u s k => Nat.eqb i j && transport_eqb t u && Bool.eqb r s && Nat.eqb h k
   | Arrive i, Arrive j => Nat.eqb i j
   | Accept i, Accept j => Nat.eqb i j
+  | AcceptFail, AcceptFail | FdExhaust, FdExhaust | FdRestore, FdRestore | SrvClose, SrvClose => true
   | On i x, On j y => Nat.eqb i j && act_eqb x y
   | _, _ => false end.
 
@@ -49,14 +57,15 @@ Lemma act_eqb_eq a b : act_eqb a b = true -> a = b.
 Proof.
   destruct a, b; cbn; try discriminate; auto.
   - intros H. apply andb_prop in H as [H1 H2]. apply zlist_eqb_eq in H1. apply eqb_prop in H2. now subst.
+  - intros H. apply Nat.eqb_eq in H. now subst.
   - destruct k, k0; cbn; try discriminate; auto.
   - destruct k, k0; cbn; try discriminate; auto.
 Qed.
 Lemma label_eqb_eq a b : label_eqb a b = true -> a = b.
 Proof.
-  destruct a, b; cbn; try discriminate.
-  - intros H. apply andb_prop in H as [H H3]. apply andb_prop in H as [H1 H2]. apply Nat.eqb_eq in H1. apply eqb_prop in H3.
-    destruct t, t0; cbn in H2; try discriminate; now subst.
+  destruct a, b; cbn; try discriminate; auto.
+  - intros H. apply andb_prop in H as [H H4]. apply andb_prop in H as [H H3]. apply andb_prop in H as [H1 H2].
+    apply Nat.eqb_eq in H1, H4. apply eqb_prop in H3. destruct t, t0; cbn in H2; try discriminate; now subst.
   - intros H. apply Nat.eqb_eq in H. now subst.
   - intros H. apply Nat.eqb_eq in H. now subst.
   - intros H. apply andb_prop in H as [H1 H2]. apply Nat.eqb_eq in H1. apply act_eqb_eq in H2. now subst.
@@ -65,7 +74,7 @@ Qed.
 Definition obs_eqb (a b : obs) : bool :=
   Bool.eqb (o_started a) (o_started b) && Nat.eqb (o_onexit a) (o_onexit b) && Bool.eqb (o_closed a) (o_closed b)
   && Nat.eqb (o_sendl a) (o_sendl b) && Nat.eqb (o_recvl a) (o_recvl b) && Nat.eqb (o_rcvd a) (o_rcvd b)
-  && zlist_eqb (o_inbox a) (o_inbox b).
+  && zlist_eqb (o_inbox a) (o_inbox b) && Nat.eqb (o_exit_h a) (o_exit_h b).
 Lemma obs_eqb_eq a b : obs_eqb a b = true -> a = b.
 Proof.
   destruct a, b. unfold obs_eqb. cbn. intros H.
@@ -79,7 +88,10 @@ Qed.
 
 (* ---------------- accept: replay in the model ---------------- *)
 Definition obs_of1 (s : sess) : obs :=
-  mkO (started s) (onexit s) (negb (copen s)) (b2n (sendl s)) (b2n (recvl s)) (rcvd s) (inbox s).
+  mkO (started s) (onexit s) (negb (copen s)) (b2n (sendl s)) (b2n (recvl s)) (rcvd s) (inbox s) (exit_h (hx s)).
+(* a connection still in the listener's queue: neither handed over nor refused *)
+Definition waiting : obs := mkO false 0 false 0 0 0 [] 0.
+Definition obs_all (t : st) : list obs := map obs_of1 (ss t) ++ repeat waiting (pend t).
 Definition external (l : label) : bool := negb (internal l).
 
 (* multiset equality of label lists *)
@@ -109,13 +121,15 @@ Fixpoint replay (t : st) (ps : list phase) : bool :=
           order_ok p
           && stable t'
           && Z.eqb (cnt t') (fst (observed p))
-          && list_eqb obs_eqb (map obs_of1 (ss t')) (snd (observed p))
+          && list_eqb obs_eqb (obs_all t') (snd (observed p))
+          && Bool.eqb (aloop (al t')) (p_loop p)
+          && Nat.leb (count_fail (resolved p)) (p_maxfails p)
           && replay t' r
       | None => false
       end
   end.
 
-Definition case_accept (c : case) : bool := replay (init (c_maxc c) 0) (c_phases c).
+Definition case_accept (c : case) : bool := replay (init (c_maxc c) 0 (c_amax c)) (c_phases c).
 
 (* ---------------- holds: the property's clauses on labels issued and observations ---------------- *)
 (* what has been asked of one session so far *)
@@ -126,24 +140,28 @@ Record hist := mkH {
   h_lclosed : bool;            (* Close was called *)
   h_rterm : bool;              (* peer close, read error, read timeout, handler error or handler panic was issued *)
   h_wfault : bool;             (* a write error / timeout was armed *)
-  h_wsend : bool               (* ... and a non-empty payload was accepted after that *)
+  h_wsend : bool;              (* ... and a non-empty payload was accepted after that *)
+  h_cur : nat;                 (* the handler installed last (0: none, the manager's is used) *)
+  h_amb : bool                 (* a handler was installed when something that can end the session had already been issued *)
 }.
-Definition fresh_hist (reads : bool) : hist := mkH reads [] true false false false false.
+Definition fresh_hist (reads : bool) (h : nat) : hist := mkH reads [] true false false false false h false.
 Definition hist_act (h : hist) (a : act) : hist :=
   match a with
   | Send bs ok => if ok then mkH (h_reads h) (h_acc h ++ [bs]) (h_clean h) (h_lclosed h) (h_rterm h) (h_wfault h)
-                                 (h_wsend h || (h_wfault h && negb (is_nil bs))) else h
-  | LocalClose => mkH (h_reads h) (h_acc h) (h_clean h) true (h_rterm h) (h_wfault h) (h_wsend h)
-  | PeerClose | RecvFault _ => mkH (h_reads h) (h_acc h) false (h_lclosed h) true (h_wfault h) (h_wsend h)
-  | PeerRead => mkH true (h_acc h) (h_clean h) (h_lclosed h) (h_rterm h) (h_wfault h) (h_wsend h)
-  | WriteFault _ => mkH (h_reads h) (h_acc h) false (h_lclosed h) (h_rterm h) true (h_wsend h)
+                                 (h_wsend h || (h_wfault h && negb (is_nil bs))) (h_cur h) (h_amb h) else h
+  | LocalClose => mkH (h_reads h) (h_acc h) (h_clean h) true (h_rterm h) (h_wfault h) (h_wsend h) (h_cur h) (h_amb h)
+  | PeerClose | RecvFault _ => mkH (h_reads h) (h_acc h) false (h_lclosed h) true (h_wfault h) (h_wsend h) (h_cur h) (h_amb h)
+  | PeerRead => mkH true (h_acc h) (h_clean h) (h_lclosed h) (h_rterm h) (h_wfault h) (h_wsend h) (h_cur h) (h_amb h)
+  | WriteFault _ => mkH (h_reads h) (h_acc h) false (h_lclosed h) (h_rterm h) true (h_wsend h) (h_cur h) (h_amb h)
+  | SetHandler k => mkH (h_reads h) (h_acc h) (h_clean h) (h_lclosed h) (h_rterm h) (h_wfault h) (h_wsend h) k
+                        (h_amb h || h_rterm h || h_lclosed h || h_wfault h)
   | _ => h
   end.
 Definition hist_label (H : list hist) (l : label) : list hist :=
   match l with
-  | Start _ _ reads => H ++ [fresh_hist reads]
-  | Arrive _ => H ++ [fresh_hist true]
-  | Accept _ => H                                  (* the accept loop's own step: nothing is asked of anybody *)
+  | Start _ _ reads h => H ++ [fresh_hist reads h]
+  | Arrive _ => H ++ [fresh_hist true 0]
+  | Accept _ | AcceptFail | FdExhaust | FdRestore | SrvClose => H    (* the accept loop and its environment: nothing is asked of a session *)
   | On i a => match nth_error H i with Some h => upd i (hist_act h a) H | None => H end
   end.
 
@@ -160,14 +178,17 @@ Fixpoint is_prefix (a b : list Z) : bool :=
   | _ :: _, [] => false
   end.
 
-Definition sess_ok (h : hist) (o : obs) : bool :=
+(* alive: the accept goroutine still runs *)
+Definition sess_ok (alive : bool) (h : hist) (o : obs) : bool :=
   if o_started o then
     (ended o || running o)                          (* it ends exactly once, completely: callback once, closed, both loops gone - or not at all *)
     && (negb (h_must h) || ended o)                 (* whatever ends it, it is over at quiescence *)
     && is_prefix (o_inbox o) (concat (h_acc h))     (* the peer reads accepted bytes only, in order *)
     && (negb (h_clean h && o_closed o) || zlist_eqb (o_inbox o) (concat (h_acc h)))   (* flush before a local close *)
-  else (* surplus connection: closed on accept, never a session *)
-    Nat.eqb (o_onexit o) 0 && o_closed o && Nat.eqb (o_sendl o) 0 && Nat.eqb (o_recvl o) 0 && is_nil (o_inbox o).
+    && (negb (ended o) || h_amb h || Nat.eqb (o_exit_h o) (h_cur h))   (* the handler told about the exit is the one installed last,
+                                                                          when it was installed before anything could end the session *)
+  else (* not a session: a surplus connection is closed on accept; it may only be left waiting when nobody accepts any more *)
+    Nat.eqb (o_onexit o) 0 && (o_closed o || negb alive) && Nat.eqb (o_sendl o) 0 && Nat.eqb (o_recvl o) 0 && is_nil (o_inbox o).
 
 Fixpoint forallb2 {A B} (f : A -> B -> bool) (x : list A) (y : list B) : bool :=
   match x, y with
@@ -179,38 +200,44 @@ Fixpoint forallb2 {A B} (f : A -> B -> bool) (x : list A) (y : list B) : bool :=
 Fixpoint count_live (os : list obs) : Z :=
   match os with [] => 0 | o :: r => (if o_started o && Nat.eqb (o_onexit o) 0 then 1 else 0) + count_live r end.
 
-(* a connection arriving alone: it is taken iff the count before it was below the maximum *)
+(* a connection arriving alone, no Accept failure provoked, the accept loop alive afterwards: it is taken iff the
+   count before it was below the maximum *)
 Definition surplus_ok (m prev : Z) (is : list label) (os : list obs) : bool :=
   match is with
   | [Arrive i] => match nth_error os i with Some o => Bool.eqb (o_started o) (prev <? m) | None => false end
   | _ => true
   end.
 
-Fixpoint holds_from (m : Z) (H : list hist) (prev : Z) (nod : bool) (ps : list phase) : bool :=
+Fixpoint holds_from (m : Z) (r : nat) (H : list hist) (prev : Z) (nod palive : bool) (ps : list phase) : bool :=
   match ps with
   | [] => true
-  | p :: r =>
+  | p :: rest =>
       let H' := fold_left hist_label (order p) H in
       let nod' := nod && forallb not_start (order p) in
       let c := fst (observed p) in
       let os := snd (observed p) in
       (negb (par p) || perm_eqb (order p) (issued p))     (* concurrent calls: every one of them took effect, once, in some order *)
-      && forallb2 sess_ok H' os
+      && forallb2 (sess_ok (p_loop p)) H' os
       && Z.eqb c (count_live os)                          (* the count is the number of sessions not yet over: every exit gave its unit back *)
       && (negb nod' || (c <=? Z.max 0 m))                 (* never above the maximum when every session came through the accept loop *)
-      && surplus_ok m prev (order p) os
-      && holds_from m H' c nod' r
+      && (negb (p_loop p && Nat.eqb (p_maxfails p) 0) || surplus_ok m prev (order p) os)
+      && (palive || negb (p_loop p))                      (* an accept loop that has ended stays ended *)
+      && (negb (palive && negb (p_loop p)) || existsb is_srvclose (order p) || Nat.leb r (p_maxfails p))
+                                                          (* it ends only by Server.Close or after acceptMaxRetry temporary errors: fewer cannot end it *)
+      && holds_from m r H' c nod' (p_loop p) rest
   end.
 
-Definition case_holds (c : case) : bool := holds_from (c_maxc c) [] 0 true (c_phases c).
+Definition case_holds (c : case) : bool := holds_from (c_maxc c) (c_amax c) [] 0 true true (c_phases c).
 
 (* ---------------- soundness: whatever the replay accepts satisfies the monitor ---------------- *)
-Definition hist_of (s : sess) : hist := mkH (peer_reads s) (accepted s) (clean s) (lclosed s) (rcause s) (wfail s) (wsend s).
+Definition hist_of (s : sess) : hist :=
+  mkH (peer_reads s) (accepted s) (clean s) (lclosed s) (rcause s) (wfail s) (wsend s) (hid (hx s)) (amb (hx s)).
 
 Lemma hist_step s a s' d : sess_step s a = Some (s', d) -> hist_of s' = hist_act (hist_of s) a.
 Proof.
-  intros H. destruct s as [t st q0 qc co sl rl ex oe wf rc po pr rv ib ac cl lc ws]. destruct a; cbn in H.
+  intros H. destruct s as [t st q0 qc co sl rl ex oe wf rc po pr rv ib ac cl lc ws [hi he ha]]. destruct a; cbn in H.
   - destruct (Bool.eqb ok (negb qc)); [|discriminate]. destruct ok; inversion H; subst; reflexivity.
+  - inversion H; subst; reflexivity.
   - inversion H; subst; reflexivity.
   - inversion H; subst; reflexivity.
   - destruct po; [|discriminate]. inversion H; subst; reflexivity.
@@ -233,24 +260,28 @@ Lemma map_upd {A B} (f : A -> B) l : forall i x, map f (upd i x l) = upd i (f x)
 Proof. induction l as [|y l IH]; intros [|i] x; cbn; auto. now rewrite IH. Qed.
 Lemma upd_same {A} (l : list A) : forall i x, nth_error l i = Some x -> upd i x l = l.
 Proof. induction l as [|y l IH]; intros [|i] x H; cbn in *; try discriminate; [now inversion H|]. now rewrite IH. Qed.
-
 Lemma upd_app1 {A} (l : list A) : forall i x r, (i < length l)%nat -> upd i x (l ++ r) = upd i x l ++ r.
 Proof. induction l as [|y l IH]; intros [|i] x r H; cbn in *; try lia; auto. f_equal. apply IH. lia. Qed.
 
 (* what has been asked of every connection: the sessions and refused connections, then the connections still waiting *)
-Definition HH (t : st) : list hist := map hist_of (ss t) ++ repeat (fresh_hist true) (pend t).
+Definition HH (t : st) : list hist := map hist_of (ss t) ++ repeat (fresh_hist true 0) (pend t).
 
 Lemma hist_of_step t l t' : step t l = Some t' -> HH t' = hist_label (HH t) l.
 Proof.
-  intros H. unfold HH. destruct l as [i trp reads|i|i|i a]; cbn [step] in H.
+  intros H. unfold HH. destruct l as [i trp reads h0|i|i| | | | |i a]; cbn [step] in H.
   - destruct (Nat.eqb i (length (ss t)) && Nat.eqb (pend t) 0) eqn:E; [|discriminate]. apply andb_prop in E as [_ E].
     apply Nat.eqb_eq in E. inversion H; subst; cbn. rewrite E. cbn. now rewrite !app_nil_r, map_app.
   - destruct (Nat.eqb i (length (ss t) + pend t)); [|discriminate]. inversion H; subst; cbn [ss pend hist_label].
-    rewrite <- app_assoc. f_equal. change (repeat (fresh_hist true) (S (pend t))) with (fresh_hist true :: repeat (fresh_hist true) (pend t)).
+    rewrite <- app_assoc. f_equal. change (repeat (fresh_hist true 0) (S (pend t))) with (fresh_hist true 0 :: repeat (fresh_hist true 0) (pend t)).
     apply repeat_cons.
-  - destruct (Nat.eqb i (length (ss t)) && negb (Nat.eqb (pend t) 0)) eqn:E; [|discriminate]. apply andb_prop in E as [_ E].
+  - destruct (Nat.eqb i (length (ss t)) && negb (Nat.eqb (pend t) 0) && aloop (al t) && negb (fdlim (al t))) eqn:E; [|discriminate].
+    apply andb_prop in E as [E _]. apply andb_prop in E as [E _]. apply andb_prop in E as [_ E].
     apply negb_true_iff, Nat.eqb_neq in E. destruct (pend t) as [|n] eqn:Ep; [congruence|].
     destruct (maxc t <=? cnt t); inversion H; subst; cbn [ss pend hist_label Nat.pred]; rewrite map_app, <- app_assoc; reflexivity.
+  - destruct (negb (Nat.eqb (pend t) 0) && aloop (al t) && fdlim (al t)); [|discriminate]. inversion H; subst; reflexivity.
+  - destruct (fdlim (al t)); [discriminate|]. inversion H; subst; reflexivity.
+  - destruct (fdlim (al t)); [|discriminate]. inversion H; subst; reflexivity.
+  - destruct (Nat.eqb (pend t) 0); [|discriminate]. inversion H; subst; reflexivity.
   - destruct (nth_error (ss t) i) as [s|] eqn:En; [|discriminate]. destruct (started s); [|discriminate].
     destruct (sess_step s a) as [[s' d]|] eqn:Es; [|discriminate]. inversion H; subst; clear H. cbn [ss pend hist_label].
     assert (Hi : (i < length (map hist_of (ss t)))%nat) by (rewrite map_length; apply nth_error_Some; congruence).
@@ -260,7 +291,7 @@ Qed.
 
 Lemma hist_internal t l t' : step t l = Some t' -> internal l = true -> HH t' = HH t.
 Proof.
-  intros H Il. rewrite (hist_of_step _ _ _ H). destruct l as [| | |i a]; try discriminate; [reflexivity|]. cbn in *.
+  intros H Il. rewrite (hist_of_step _ _ _ H). destruct l as [| | | | | | |i a]; try discriminate; try reflexivity. cbn in *.
   destruct (nth_error (HH t) i) as [h|] eqn:En; [|reflexivity].
   replace (hist_act h a) with h by (destruct a; try discriminate; reflexivity). now apply upd_same.
 Qed.
@@ -282,13 +313,20 @@ Proof.
   - now rewrite IH.
 Qed.
 
+Lemma srvclose_filter ls : existsb is_srvclose (filter external ls) = existsb is_srvclose ls.
+Proof.
+  induction ls as [|l ls IH]; cbn; [reflexivity|]. unfold external at 1. destruct (internal l) eqn:Il; cbn.
+  - rewrite IH. destruct l; try discriminate; reflexivity.
+  - now rewrite IH.
+Qed.
+
 (* per session: the invariant and quiescence give the monitor's clauses *)
 Lemma is_prefix_app a : forall rest, is_prefix a (a ++ rest) = true.
 Proof. induction a as [|x a IH]; intros rest; cbn; [reflexivity|]. now rewrite Z.eqb_refl, IH. Qed.
 Lemma zlist_eqb_refl a : zlist_eqb a a = true.
 Proof. apply list_eqb_refl. apply Z.eqb_refl. Qed.
 
-Lemma sess_ok_sound s : Inv1 s -> quiet s = true -> sess_ok (hist_of s) (obs_of1 s) = true.
+Lemma sess_ok_sound alive s : Inv1 s -> quiet s = true -> sess_ok alive (hist_of s) (obs_of1 s) = true.
 Proof.
   intros I Q. unfold Inv1 in I. destruct (started s) eqn:St.
   - unfold sess_ok. cbn [obs_of1 o_started]. rewrite St.
@@ -298,8 +336,12 @@ Proof.
     destruct (exited s) eqn:Ex.
     + destruct (quiet_exited s I St Q Ex) as [Sl Rl]. destruct (i_exit_closed s I Ex) as [Qc Co].
       assert (En : ended (obs_of1 s) = true) by (unfold ended; cbn; rewrite Oe, Co, Sl, Rl; reflexivity).
-      rewrite En. cbn [orb andb hist_of h_acc h_clean o_inbox obs_of1 o_closed]. rewrite orb_true_r, Pre. cbn [andb].
-      rewrite Co. cbn [negb]. rewrite andb_true_r. destruct (clean s) eqn:Cl; [|reflexivity]. cbn [negb orb].
+      rewrite En. cbn [orb andb negb hist_of h_acc h_clean h_amb h_cur o_inbox obs_of1 o_closed o_exit_h]. rewrite orb_true_r, Pre. cbn [andb].
+      rewrite Co. cbn [negb]. rewrite andb_true_r.
+      assert (Hh : amb (hx s) || Nat.eqb (exit_h (hx s)) (hid (hx s)) = true).
+      { destruct (amb (hx s)) eqn:Am; [reflexivity|]. cbn. rewrite (i_amb s I Am Ex). apply Nat.eqb_refl. }
+      rewrite Hh, andb_true_r.
+      destruct (clean s) eqn:Cl; [|reflexivity]. cbn [negb orb].
       destruct (i_clean s I Cl) as (_ & _ & _ & _ & F). rewrite (F Ex). apply zlist_eqb_refl.
     + pose proof (i_open s I Ex) as Co.
       assert (Sl : sendl s = true) by (destruct (sendl s) eqn:X; auto; rewrite (i_loops s I) in Ex; [discriminate|auto]).
@@ -314,12 +356,22 @@ Proof.
   - subst s. reflexivity.
 Qed.
 
-Lemma all_ok_sound l : Forall Inv1 l -> forallb quiet l = true -> forallb2 sess_ok (map hist_of l) (map obs_of1 l) = true.
+Lemma all_ok_sound alive l : Forall Inv1 l -> forallb quiet l = true -> forallb2 (sess_ok alive) (map hist_of l) (map obs_of1 l) = true.
 Proof.
   induction l as [|s l IH]; intros HF HQ; cbn [map forallb2]; [reflexivity|]. inversion HF as [|? ? H1 H2]; subst.
   cbn [forallb] in HQ. apply andb_prop in HQ as [Q1 Q2].
-  rewrite (sess_ok_sound s H1 Q1). cbn [andb]. exact (IH H2 Q2).
+  rewrite (sess_ok_sound alive s H1 Q1). cbn [andb]. exact (IH H2 Q2).
 Qed.
+
+Lemma forallb2_app {A B} (f : A -> B -> bool) a1 : forall b1 a2 b2, forallb2 f a1 b1 = true -> forallb2 f a2 b2 = true ->
+  forallb2 f (a1 ++ a2) (b1 ++ b2) = true.
+Proof.
+  induction a1 as [|x a1 IH]; destruct b1 as [|y b1]; cbn; intros a2 b2 H1 H2; try discriminate; auto.
+  apply andb_prop in H1 as [H H1]. rewrite H. cbn. apply IH; auto.
+Qed.
+
+Lemma waiting_ok n : forallb2 (sess_ok false) (repeat (fresh_hist true 0) n) (repeat waiting n) = true.
+Proof. induction n as [|n IH]; cbn [repeat forallb2]; [reflexivity|]. rewrite IH. reflexivity. Qed.
 
 Lemma count_live_sound l : Forall Inv1 l -> count_live (map obs_of1 l) = total l.
 Proof.
@@ -327,14 +379,23 @@ Proof.
   unfold live. unfold Inv1 in I1. destruct (started s) eqn:St; cbn; [|reflexivity].
   rewrite (i_onexit s I1). destruct (exited s); reflexivity.
 Qed.
+Lemma count_live_app a b : count_live (a ++ b) = count_live a + count_live b.
+Proof. induction a as [|o a IH]; cbn; [reflexivity|]. rewrite IH. lia. Qed.
+Lemma count_live_waiting n : count_live (repeat waiting n) = 0.
+Proof. induction n as [|n IH]; cbn; [reflexivity|]. exact IH. Qed.
 
 (* at quiescence none of the implementation's own steps is enabled *)
-Lemma stable_pend t : stable t = true -> pend t = 0%nat /\ forallb quiet (ss t) = true.
-Proof. unfold stable. intros H. apply andb_prop in H as [A B]. apply Nat.eqb_eq in A. auto. Qed.
-
-Lemma quiet_internal_none t l : forallb quiet (ss t) = true -> internal l = true -> (forall i, l <> Accept i) -> step t l = None.
+Lemma stable_parts t : stable t = true -> (pend t = 0%nat \/ aloop (al t) = false) /\ forallb quiet (ss t) = true.
 Proof.
-  intros S Il Hna. destruct l as [| |j|i a]; try discriminate; [exfalso; apply (Hna j); reflexivity|]. cbn in Il. cbn [step].
+  unfold stable. intros H. apply andb_prop in H as [A B]. split; [|exact B].
+  apply orb_prop in A as [A|A]; [left; now apply Nat.eqb_eq|right; now apply negb_true_iff].
+Qed.
+
+Lemma quiet_internal_none t l : forallb quiet (ss t) = true -> internal l = true ->
+  (forall i, l <> Accept i) -> l <> AcceptFail -> step t l = None.
+Proof.
+  intros S Il Hna Hnf. destruct l as [| |j| | | | |i a]; try discriminate; [exfalso; apply (Hna j); reflexivity|exfalso; apply Hnf; reflexivity|].
+  cbn in Il. cbn [step].
   destruct (nth_error (ss t) i) as [s|] eqn:En; [|reflexivity]. destruct (started s) eqn:St; [|reflexivity].
   rewrite forallb_forall in S. pose proof (S s (nth_error_In _ _ En)) as Q.
   destruct (quiet_started s St Q) as (A & B & C). destruct a; try discriminate; [now rewrite A|now rewrite B|now rewrite C].
@@ -342,103 +403,146 @@ Qed.
 
 Lemma stable_internal_none t l : stable t = true -> internal l = true -> step t l = None.
 Proof.
-  intros S Il. destruct (stable_pend t S) as [P Q]. destruct l as [| |j|i a] eqn:El; try discriminate.
-  - cbn [step]. rewrite P. cbn. now rewrite andb_false_r.
-  - rewrite <- El. apply quiet_internal_none; auto; subst l; [exact Il|discriminate].
+  intros S Il. destruct (stable_parts t S) as [P Q]. destruct l as [| |j| | | | |i a] eqn:El; try discriminate.
+  - cbn [step]. destruct P as [P|P]; rewrite P; cbn; now rewrite ?andb_false_r.
+  - cbn [step]. destruct P as [P|P]; rewrite P; cbn; now rewrite ?andb_false_r.
+  - rewrite <- El. apply quiet_internal_none; auto; subst l; [exact Il|discriminate|discriminate].
 Qed.
 
-Lemma quiet_fresh t r : quiet (fresh t r) = true.
-Proof. reflexivity. Qed.
-Lemma quiet_rejected : quiet rejected = true.
-Proof. reflexivity. Qed.
-
-(* a connection arriving alone at quiescence: the run is the arrival followed by the accept loop's step *)
+(* a connection arriving alone at quiescence, no Accept failing, the accept loop alive at the end: the run is the
+   arrival followed by the accept loop's step *)
 Lemma surplus_sound t ls t' i : stable t = true -> run t ls = Some t' -> stable t' = true -> filter external ls = [Arrive i] ->
-  nth_error (map obs_of1 (ss t')) i = Some (obs_of1 (if maxc t <=? cnt t then rejected else fresh Tcp true)).
+  aloop (al t') = true -> count_fail ls = 0%nat ->
+  nth_error (obs_all t') i = Some (obs_of1 (if maxc t <=? cnt t then rejected else fresh Tcp true 0%nat)).
 Proof.
-  intros S H S' F. destruct (stable_pend t S) as [P Q].
+  intros Sb H Sb' F Al' NF. destruct (stable_parts t Sb) as [P Q].
   destruct ls as [|l ls]; [discriminate|]. cbn in H. destruct (step t l) as [t1|] eqn:E; [|discriminate].
-  destruct (internal l) eqn:Il; [rewrite (stable_internal_none _ _ S Il) in E; discriminate|].
+  destruct (internal l) eqn:Il; [rewrite (stable_internal_none _ _ Sb Il) in E; discriminate|].
   cbn in F. unfold external in F at 1. rewrite Il in F. cbn in F. inversion F as [[Hl F']]. subst l.
-  cbn [step] in E. rewrite P, Nat.add_0_r in E. destruct (Nat.eqb i (length (ss t))) eqn:Ei; [|discriminate]. apply Nat.eqb_eq in Ei.
+  cbn [step] in E. destruct (Nat.eqb i (length (ss t) + pend t)) eqn:Ei; [|discriminate]. apply Nat.eqb_eq in Ei.
   inversion E; subst t1; clear E.
+  assert (Lv : forall u, aloop (al u) = true -> stable u = true -> pend u = 0%nat).
+  { intros u A1 A2. destruct (stable_parts u A2) as [[X|X] _]; [exact X|congruence]. }
   destruct ls as [|l2 ls].
-  - (* the arrival alone cannot be the whole run: the connection would still be waiting *)
-    cbn in H. inversion H; subst t'. unfold stable in S'. cbn in S'. discriminate.
+  - (* the arrival alone: the connection would still be waiting although the loop is alive *)
+    cbn in H. inversion H; subst t'. pose proof (Lv _ Al' Sb') as X. cbn in X. discriminate.
   - cbn in H. destruct (internal l2) eqn:Il2; [|cbn in F'; unfold external in F' at 1; rewrite Il2 in F'; discriminate].
-    destruct l2 as [| |j|j a]; try discriminate.
+    destruct l2 as [| |j| | | | |j a]; try discriminate.
     + (* the accept loop takes it *)
-      cbn [step ss pend] in H. destruct (Nat.eqb j (length (ss t)) && negb (Nat.eqb 1 0)) eqn:Ej; [|discriminate].
-      set (x := if maxc t <=? cnt t then rejected else fresh Tcp true).
+      cbn [step ss pend al maxc cnt] in H.
+      destruct (Nat.eqb j (length (ss t)) && negb (Nat.eqb (S (pend t)) 0) && aloop (al t) && negb (fdlim (al t))) eqn:Ej; [|discriminate].
+      apply andb_prop in Ej as [Ej _]. apply andb_prop in Ej as [Ej Al]. 
+      assert (P0 : pend t = 0%nat) by (destruct P as [X|X]; [exact X|congruence]).
+      set (x := if maxc t <=? cnt t then rejected else fresh Tcp true 0%nat).
       assert (Hx : exists c, (if maxc t <=? cnt t
-                 then Some (mkSt (maxc t) (cnt t) (ss t ++ [rejected]) (Nat.pred 1))
-                 else Some (mkSt (maxc t) (cnt t + 1) (ss t ++ [fresh Tcp true]) (Nat.pred 1))) = Some (mkSt (maxc t) c (ss t ++ [x]) 0%nat))
-        by (unfold x; destruct (maxc t <=? cnt t); eexists; reflexivity).
-      destruct Hx as [c Hx]. cbn [maxc cnt] in H. rewrite Hx in H.
-      set (t2 := mkSt (maxc t) c (ss t ++ [x]) 0%nat) in *.
+                 then Some (mkSt (maxc t) (cnt t) (ss t ++ [rejected]) (Nat.pred (S (pend t))) (set_aretry (al t) 0%nat))
+                 else Some (mkSt (maxc t) (cnt t + 1) (ss t ++ [fresh Tcp true 0%nat]) (Nat.pred (S (pend t))) (set_aretry (al t) 0%nat)))
+                 = Some (mkSt (maxc t) c (ss t ++ [x]) 0%nat (set_aretry (al t) 0%nat)))
+        by (unfold x; rewrite P0; destruct (maxc t <=? cnt t); eexists; reflexivity).
+      destruct Hx as [c Hx]. rewrite Hx in H.
+      set (t2 := mkSt (maxc t) c (ss t ++ [x]) 0%nat (set_aretry (al t) 0%nat)) in *.
       assert (S2 : stable t2 = true).
       { unfold stable, t2. cbn. rewrite forallb_app, Q. cbn. unfold x. destruct (maxc t <=? cnt t); reflexivity. }
       destruct ls as [|l3 ls].
-      * cbn in H. inversion H; subst t'. unfold t2. cbn [ss]. rewrite map_app, nth_error_app2; rewrite map_length; [|lia].
-        rewrite Ei, Nat.sub_diag. reflexivity.
+      * cbn in H. inversion H; subst t'. unfold obs_all, t2. cbn [ss pend repeat]. rewrite app_nil_r, map_app, nth_error_app2; rewrite map_length; [|lia].
+        rewrite Ei, P0, Nat.add_0_r, Nat.sub_diag. reflexivity.
       * exfalso. cbn in H. destruct (internal l3) eqn:Il3.
         -- rewrite (stable_internal_none _ _ S2 Il3) in H. discriminate.
         -- cbn in F'. unfold external in F' at 1. cbn in F'. unfold external in F' at 1. rewrite Il3 in F'. discriminate.
+    (* (an Accept failure is excluded by the count: solved by discriminate above) *)
     + (* no session can move: they were quiet before the arrival *)
-      exfalso. assert (X : step (mkSt (maxc t) (cnt t) (ss t) 1%nat) (On j a) = None).
-      { apply quiet_internal_none; [exact Q|exact Il2|discriminate]. }
+      exfalso. assert (X : step (mkSt (maxc t) (cnt t) (ss t) (S (pend t)) (al t)) (On j a) = None).
+      { apply quiet_internal_none; [exact Q|exact Il2|discriminate|discriminate]. }
       rewrite X in H. discriminate.
 Qed.
 
 Lemma forallb2_length {A B} (f : A -> B -> bool) x : forall y, forallb2 f x y = true -> length x = length y.
 Proof. induction x as [|a x IH]; destruct y; cbn; try discriminate; auto. intros H. apply andb_prop in H as [_ H]. f_equal. auto. Qed.
 
-Lemma replay_sound m : forall ps t H prev nod,
-  GInv 0 t -> maxc t = m -> HH t = H -> prev = cnt t -> stable t = true ->
+Lemma replay_sound m r : forall ps t H prev nod palive,
+  GInv 0 t -> maxc t = m -> amax (al t) = r -> HH t = H -> prev = cnt t -> stable t = true -> palive = aloop (al t) ->
   (nod = true -> cnt t <= Z.max 0 m) ->
-  replay t ps = true -> holds_from m H prev nod ps = true.
+  replay t ps = true -> holds_from m r H prev nod palive ps = true.
 Proof.
-  induction ps as [|p ps IH]; intros t H prev nod G Hm HH0 Hp S Hb R; [reflexivity|].
+  induction ps as [|p ps IH]; intros t H prev nod palive G Hm Hr HH0 Hp S Hpa Hb R; [reflexivity|].
   cbn [replay] in R. destruct (run t (resolved p)) as [t'|] eqn:Er; [|discriminate].
-  apply andb_prop in R as [R R5]. apply andb_prop in R as [R R4]. apply andb_prop in R as [R R3]. apply andb_prop in R as [R1 R2].
-  apply Z.eqb_eq in R3. apply (list_eqb_eq obs_eqb obs_eqb_eq) in R4.
+  apply andb_prop in R as [R R7]. apply andb_prop in R as [R R6]. apply andb_prop in R as [R R5]. apply andb_prop in R as [R R4].
+  apply andb_prop in R as [R R3]. apply andb_prop in R as [R1 R2].
+  apply Z.eqb_eq in R3. apply (list_eqb_eq obs_eqb obs_eqb_eq) in R4. apply eqb_prop in R5. apply Nat.leb_le in R6.
   assert (OP : filter external (resolved p) = order p /\ (negb (par p) || perm_eqb (order p) (issued p)) = true).
   { unfold order_ok in R1. unfold order. destruct (par p); cbn [negb orb].
     - split; [reflexivity|exact R1].
     - split; [|reflexivity]. apply (list_eqb_eq label_eqb label_eqb_eq). exact R1. }
   destruct OP as [O Pm]. clear R1.
   destruct (run_ginv 0 _ _ _ G Er) as [G' Hm'].
-  destruct (stable_pend t' R2) as [P' Q'].
+  destruct (stable_parts t' R2) as [P' Q'].
   cbn [holds_from]. destruct (observed p) as [c os]. cbn [fst snd] in *. subst c os.
   rewrite Pm. cbn [andb].
-  assert (HH' : fold_left hist_label (order p) H = map hist_of (ss t')).
-  { rewrite <- O, <- HH0. rewrite <- (hist_run _ _ _ Er). unfold HH. rewrite P'. cbn. apply app_nil_r. }
+  assert (HH' : fold_left hist_label (order p) H = HH t') by (rewrite <- O, <- HH0; symmetry; apply hist_run; exact Er).
   rewrite HH'.
   assert (Nd : forallb not_start (order p) = forallb not_start (resolved p)) by (rewrite <- O; apply not_start_filter).
   assert (Hb' : nod && forallb not_start (order p) = true -> cnt t' <= Z.max 0 m).
   { intros X. apply andb_prop in X as [X1 X2]. rewrite Nd in X2. rewrite <- Hm, <- Hm'.
     apply (run_bound 0 (resolved p) t t' G (Z.le_refl 0) Er X2). rewrite Hm. auto. }
-  rewrite (all_ok_sound _ (g_all _ _ G') Q').
-  rewrite (count_live_sound _ (g_all _ _ G')). pose proof (g_cnt _ _ G') as Gc. rewrite Z.add_0_l in Gc. rewrite <- Gc, Z.eqb_refl.
-  cbn [andb].
+  (* every connection: sessions and refused ones by the invariant, waiting ones only when the loop is gone *)
+  assert (OK : forallb2 (sess_ok (p_loop p)) (HH t') (obs_all t') = true).
+  { unfold HH, obs_all. apply forallb2_app; [apply all_ok_sound; [exact (g_all _ _ G')|exact Q']|].
+    destruct P' as [P'|P']; [rewrite P'; reflexivity|]. rewrite <- R5, P'. apply waiting_ok. }
+  rewrite OK. cbn [andb].
+  assert (CL : count_live (obs_all t') = cnt t').
+  { unfold obs_all. rewrite count_live_app, count_live_waiting, (count_live_sound _ (g_all _ _ G')).
+    pose proof (g_cnt _ _ G') as Gc. lia. }
+  rewrite CL, Z.eqb_refl. cbn [andb].
   assert (B : negb (nod && forallb not_start (order p)) || (cnt t' <=? Z.max 0 m) = true).
   { destruct (nod && forallb not_start (order p)) eqn:X; [|reflexivity]. cbn. apply Z.leb_le. auto. }
   rewrite B. cbn [andb].
-  assert (Su : surplus_ok m prev (order p) (map obs_of1 (ss t')) = true).
-  { unfold surplus_ok. destruct (order p) as [|[| i | |] [|]] eqn:Ei; try reflexivity.
-    rewrite (surplus_sound t (resolved p) t' i S Er R2 O). subst prev m.
+  assert (Su : negb (p_loop p && Nat.eqb (p_maxfails p) 0) || surplus_ok m prev (order p) (obs_all t') = true).
+  { destruct (p_loop p && Nat.eqb (p_maxfails p) 0) eqn:X; [|reflexivity]. cbn [negb orb].
+    apply andb_prop in X as [X1 X2]. apply Nat.eqb_eq in X2. rewrite X2 in R6.
+    unfold surplus_ok. destruct (order p) as [|[| i | | | | | |] [|]] eqn:Ei; try reflexivity.
+    rewrite (surplus_sound t (resolved p) t' i S Er R2 O); [|congruence|lia]. subst prev m.
     destruct (maxc t <=? cnt t) eqn:E; cbn.
     - apply Z.leb_le in E. assert (X : cnt t <? maxc t = false) by (apply Z.ltb_ge; lia). now rewrite X.
     - apply Z.leb_gt in E. assert (X : cnt t <? maxc t = true) by (apply Z.ltb_lt; lia). now rewrite X. }
   rewrite Su. cbn [andb].
+  (* the accept loop *)
+  assert (Mono : palive || negb (p_loop p) = true).
+  { destruct palive eqn:Pa; [reflexivity|]. cbn. rewrite <- R5.
+    destruct (aloop (al t')) eqn:A'; [|reflexivity]. exfalso.
+    assert (Dead : forall ls u u', run u ls = Some u' -> aloop (al u) = false -> aloop (al u') = false).
+    { induction ls as [|l ls IHl]; intros u u' Hu Hd; cbn in Hu; [inversion Hu; subst; exact Hd|].
+      destruct (step u l) as [u1|] eqn:Eu; [|discriminate]. apply (IHl u1 u' Hu).
+      destruct l as [i trp reads h0|i|i| | | | |i a]; cbn [step] in Eu.
+      - destruct (Nat.eqb i (length (ss u)) && Nat.eqb (pend u) 0); [|discriminate]. inversion Eu; subst; exact Hd.
+      - destruct (Nat.eqb i (length (ss u) + pend u)); [|discriminate]. inversion Eu; subst; exact Hd.
+      - destruct (Nat.eqb i (length (ss u)) && negb (Nat.eqb (pend u) 0) && aloop (al u) && negb (fdlim (al u))) eqn:Eg; [|discriminate].
+        apply andb_prop in Eg as [Eg _]. apply andb_prop in Eg as [_ Eg]. congruence.
+      - destruct (negb (Nat.eqb (pend u) 0) && aloop (al u) && fdlim (al u)) eqn:Eg; [|discriminate].
+        apply andb_prop in Eg as [Eg _]. apply andb_prop in Eg as [_ Eg]. congruence.
+      - destruct (fdlim (al u)); [discriminate|]. inversion Eu; subst; exact Hd.
+      - destruct (fdlim (al u)); [|discriminate]. inversion Eu; subst; exact Hd.
+      - destruct (Nat.eqb (pend u) 0); [|discriminate]. inversion Eu; subst; reflexivity.
+      - destruct (nth_error (ss u) i) as [s|]; [|discriminate]. destruct (started s); [|discriminate].
+        destruct (sess_step s a) as [[s' d]|]; [|discriminate]. inversion Eu; subst; exact Hd. }
+    rewrite (Dead _ _ _ Er (eq_sym Hpa)) in A'. discriminate. }
+  rewrite Mono. cbn [andb].
+  assert (Death : negb (palive && negb (p_loop p)) || existsb is_srvclose (order p) || Nat.leb r (p_maxfails p) = true).
+  { destruct (palive && negb (p_loop p)) eqn:X; [|reflexivity]. cbn [negb orb].
+    apply andb_prop in X as [X1 X2]. apply negb_true_iff in X2. subst palive.
+    destruct (existsb is_srvclose (order p)) eqn:Sc; [reflexivity|]. cbn [orb].
+    rewrite <- O, srvclose_filter in Sc.
+    assert (P0 : pend t = 0%nat) by (destruct (stable_parts t S) as [[Y|Y] _]; [exact Y|congruence]).
+    pose proof (loop_death_needs_retries 0 t (resolved p) t' G X1 P0 Er (eq_trans R5 X2) Sc) as L.
+    apply Nat.leb_le. lia. }
+  rewrite Death. cbn [andb].
   apply (IH t'); auto; try congruence.
-  unfold HH. rewrite P'. cbn. now rewrite app_nil_r.
+  rewrite (run_amax _ _ _ Er). exact Hr.
 Qed.
 
 Theorem case_sound : forall c, case_accept c = true -> case_holds c = true.
 Proof.
-  intros [m ps] H. unfold case_accept, case_holds in *. cbn [c_maxc c_phases] in *.
-  apply (replay_sound m ps (init m 0)); auto.
+  intros [m r ps] H. unfold case_accept, case_holds in *. cbn [c_maxc c_amax c_phases] in *.
+  apply (replay_sound m r ps (init m 0 r)); auto.
   - apply init_ginv.
   - intros _. cbn. lia.
 Qed.
